@@ -177,7 +177,7 @@ PROFILES = {
         'coverage': c08_coverage,
         'warnings': c08_warnings,
         'level': 'exploration',
-        'quick_runs': 4350,
-        'thorough_runs': 153310,
+        'quick_runs': 4354,
+        'thorough_runs': 153314,
     },
 }
